@@ -102,7 +102,7 @@ pub fn run(tier: Tier) -> i32 {
     let orders: Vec<usize> = tier.pick((2..=24).filter(|o| *o <= 8 || o % 4 == 0 || *o == 23).collect(), (2..=24).collect());
     let stages: &[usize] = &[1, 2, 3, 4];
     let alphas = [0.0, 0.3, 0.6];
-    rep.set_rule("SCOPE: LSP orders x stages 1..4 x alpha {0,.3,.6} x {linear, log} gain x K {0.5,1,2}; LSP sets = all compositions of the order+1 gaps from {1,2,4} units (orders up to the full bound) or uniform + every single gap narrowed/widened (larger orders), plus for every order the two sets whose first (last) two gaps have the smallest legal spacing, all with spacing >= pi/(4(order+1)); real Vocoder pulse responses of the first and the second frame at F0=20Hz, and on every 5th case the 3rd/4th frame after a first frame with another gain (same frequencies) or with other frequencies; oracle ln K - s ln|A(e^{jw~})| within 0.001 Np at grid frequencies within 100 dB of the peak, response finite and decaying; distinct = (order, stage, alpha, gain form, K, LSP set)");
+    rep.set_rule("SCOPE: LSP orders x stages 1..4 x alpha {0,.3,.6} x {linear, log} gain x K {0.5,1,2}; LSP sets = all compositions of the order+1 gaps from {1,2,4} units (orders up to the full bound) or uniform + every single gap narrowed/widened (larger orders), plus for every order the two sets whose first (last) two gaps have the smallest legal spacing, all with spacing >= pi/(4(order+1)); real Vocoder pulse responses of the first and the second frame at F0=20Hz, and on every 5th case the 3rd/4th frame after a first frame with another gain (same frequencies) or with other frequencies; plus one thread visiting orders 24,3,23,2,16,5,.. in turn; oracle ln K - s ln|A(e^{jw~})| within 0.001 Np at grid frequencies within 100 dB of the peak, response finite and decaying; distinct = (order, stage, alpha, gain form, K, LSP set)");
     rep.assume("LSP sets on the gap lattice only; nominal rate raised (8k..8M) only to lengthen T0 until the truncated tail is < 1e-9 of the peak");
     let mut cases: Vec<(usize, usize, f64, bool, f64, Vec<f64>)> = Vec::new();
     for &order in &orders {
@@ -225,6 +225,47 @@ pub fn run(tier: Tier) -> i32 {
             }
         }
     });
+    // one thread, orders visited in a zig-zag from large to small: whatever a larger order left behind on this thread (scratch
+    // tables that only grow) must not leak into a smaller one
+    {
+        let zig: Vec<usize> = vec![24, 3, 23, 2, 16, 5, 10, 4, 8, 6, 12, 7];
+        let mut n = 0u64;
+        for (zi, &order) in zig.iter().enumerate() {
+            let sets = lsp_sets(order, 0);
+            let set = &sets[(zi * 3) % sets.len()];
+            for (stage, alpha, lg, k) in [(1usize, 0.0f64, false, 2.0f64), (3, 0.42, true, 0.5)] {
+                let mut params = vec![if lg { k.ln() } else { k }];
+                params.extend(set.iter());
+                rep.eval(1);
+                n += 1;
+                let rp = json!({"order": order, "stage": stage, "alpha": alpha, "log_gain": lg, "params_gain_then_lsp": params, "after_orders": zig[..zi].to_vec()});
+                match response(order, stage, lg, alpha, 0.0, &params, 8_000_000) {
+                    Err(p) => rep.violation(format!("panic@{}", site_of(&p)), p, rp),
+                    Ok((h, _rate, tail, h2)) => {
+                        if tail.is_nan() || tail > 1e-6 {
+                            rep.violation("diverges", format!("order {} after larger orders on the same thread: response not finite or not decaying", order), rp);
+                            continue;
+                        }
+                        let a = lsp_to_a(set);
+                        let want: Vec<f64> = grid.iter().map(|w| k.ln() - stage as f64 * poly_logmag(&a, warp(*w, alpha))).collect();
+                        let peak = want.iter().cloned().fold(f64::NEG_INFINITY, f64::max);
+                        let mut err = 0.0f64;
+                        for (w, wnt) in grid.iter().zip(&want) {
+                            if *wnt < peak - 100.0 * std::f64::consts::LN_10 / 20.0 {
+                                continue;
+                            }
+                            rep.cmp(2);
+                            err = err.max((logmag(&h, *w) - wnt).abs()).max((logmag(&h2, *w) - wnt).abs());
+                        }
+                        if !(err <= 0.001) {
+                            rep.violation("spectrum-after-larger-order", format!("order {} (stage {}, alpha {}) measured on a thread that ran orders {:?} before: |H| deviates {:.5} Np", order, stage, alpha, &zig[..zi], err), rp);
+                        }
+                    }
+                }
+            }
+        }
+        rep.note("zigzag_order_cases", json!(n));
+    }
     let w = worst.lock().unwrap().clone();
     rep.note("bounds", json!({"orders": orders, "full_composition_up_to_order": full_upto, "stages": stages, "alphas": alphas, "K": [0.5,1.0,2.0], "frequencies": nfreq, "cases": cases.len(), "worst_error_np": w.0, "worst_case": w.1}));
     rep.sample(json!({"order": 2, "stage": 1, "alpha": 0.0, "log_gain": false, "params": [0.5, PI / 3.0, 2.0 * PI / 3.0]}));
